@@ -28,6 +28,7 @@ pub assume_specification[ SymbolicContext::find_network_variable ](c: &SymbolicC
 //@include prelude/str_model.rs
 //@include spec/grammar.rs
 //@include spec/lex.rs
+//@include spec/strmap.rs
 //@include spec/rename.rs
 //@fmtfns
 
